@@ -34,6 +34,13 @@ pub struct OuterFrom {
 
 impl OuterFrom {
     pub fn start(di: &syn::DeriveInput) -> Result<Self> {
+        // The traits built on `OuterFrom` fill a struct from a syntax element; there is no
+        // code generation for enums. Reject them here: relying on the per-variant errors
+        // lets an enum without variants through to a panic in code generation.
+        if let syn::Data::Enum(_) = di.data {
+            return Err(Error::unsupported_shape("enum").with_span(&di.ident));
+        }
+
         Ok(OuterFrom {
             container: Core::start(di)?,
             attrs: Default::default(),
